@@ -46,6 +46,7 @@ type cScenario struct {
 	matchNil bool
 	H        int64
 	cerr     int // how the scripted conn's Close behaves (cliScriptConn.closeMode)
+	werr     int // index of the WriteTo that fails on the open conn; -1 = none
 	evs      []cEvent
 	probe    bool // oracle only: try to reuse the xid right after the return
 }
@@ -79,7 +80,7 @@ func parseInt64(s string) int64 {
 }
 
 func cli_parseScenario(op string, args []string) cScenario {
-	sc := cScenario{v6: op == "client6"}
+	sc := cScenario{v6: op == "client6", werr: -1}
 	sc.T = parseInt64(fieldOf(args, "T"))
 	sc.n = int(parseInt64(fieldOf(args, "n")))
 	sc.cap = int(parseInt64(fieldOf(args, "cap")))
@@ -88,6 +89,9 @@ func cli_parseScenario(op string, args []string) cScenario {
 	for _, a := range args {
 		if strings.HasPrefix(a, "cerr=") {
 			sc.cerr = int(parseInt64(a[5:]))
+		}
+		if strings.HasPrefix(a, "werr=") {
+			sc.werr = int(parseInt64(a[5:]))
 		}
 	}
 	ev := fieldOf(args, "ev")
@@ -131,6 +135,9 @@ func (sc cScenario) line() string {
 	if sc.cerr != 0 {
 		ce = fmt.Sprintf(" cerr=%d", sc.cerr)
 	}
+	if sc.werr >= 0 {
+		ce += fmt.Sprintf(" werr=%d", sc.werr)
+	}
 	return fmt.Sprintf("%s T=%d n=%d cap=%d m=%s H=%d%s ev=%s", op, sc.T, sc.n, sc.cap, m, sc.H, ce, ev)
 }
 
@@ -160,6 +167,8 @@ func outcomeOf(class byte, idx int, tagged bool, isNil bool, err error, ctx cont
 		return "noresp"
 	case ctx.Err() != nil && errors.Is(err, ctx.Err()):
 		return "ctx"
+	case strings.Contains(err.Error(), "error writing packet to connection") && strings.Contains(err.Error(), errCliConnWrite.Error()):
+		return "werr"
 	default:
 		return "other:" + strings.ReplaceAll(err.Error(), " ", "_")
 	}
@@ -241,6 +250,7 @@ func runTimed(sc cScenario) cResult {
 		now := func() int64 { return int64(time.Since(start)) }
 		conn := cli_newScriptConn(now)
 		conn.closeMode = sc.cerr
+		conn.failWrite = sc.werr
 		for i, e := range sc.evs {
 			if e.hook {
 				if conn.hooks == nil {
